@@ -409,6 +409,7 @@ def run(ctx):
     cross_instance_stream(ctx)
     hyperparams_and_input_untouched_stream(ctx)
     shared_component_stream(ctx)
+    entry_points_and_buffers_stream(ctx)
     reuse_stream(ctx, "StatThresholdAnomaliser(PELT)", lambda: StatThresholdAnomaliser(PELT(min_segment_length=2), stat_lower=-1.0, stat_upper=1.0), ctx.n(4, 30),
                  p_choices=(1,), other_shape=False)
 
@@ -597,6 +598,71 @@ def shared_component_stream(ctx):
                               {"what": "shared-component-state", "detector": "StatThresholdAnomaliser"})
             elif cd.is_fitted:
                 ctx.violation(f"StatThresholdAnomaliser({nm}).fit fitted the caller's own detector object (is_fitted is now True)", inp, {"what": "caller-component-fitted"})
+
+
+def entry_points_and_buffers_stream(ctx):
+    """(a) The composite entry points are fits: after fit(A), fit_predict(B) / fit_transform(B) the training data is B, so update(C) and everything after it behave like a fresh
+    detector fitted on B and updated with C.  (b) A SCORER fitted again on the caller's own buffer after the buffer was overwritten in place scores the new numbers (as a fresh
+    scorer does), whatever object identity suggests."""
+    from harness import isolated
+    from skchange.anomaly_scores import L2Saving, LocalAnomalyScore, Saving
+    from skchange.change_scores import CUSUM, ChangeScore
+    from skchange.costs import GaussianCovCost, GaussianVarCost, L2Cost
+    rng = np.random.default_rng(ctx.seed + 1010)
+    configs = [("PELT", {}), ("MovingWindow", {"bandwidth": 5, "threshold_scale": None, "level": 0.1}), ("SeededBinarySegmentation", {"threshold_scale": None, "level": 0.1}),
+               ("CAPA", {}), ("CircularBinarySegmentation", {"max_interval_length": 40})]
+    for rep in range(ctx.n(2, 6)):
+        A = pd.DataFrame(rng.normal(size=(int(rng.integers(50, 70)), 1)))
+        B = pd.DataFrame(rng.normal(size=(int(rng.integers(80, 110)), 1)) * 1.5)
+        B.iloc[40:] += 4.0
+        nC = int(rng.integers(30, 50))
+        C = pd.DataFrame(rng.normal(size=(nC, 1)) + 4.0, index=pd.RangeIndex(len(B), len(B) + nC))
+        D = pd.DataFrame(rng.normal(size=(90, 1)))
+        D.iloc[30:60] += 5.0
+        for nm, kw in configs:
+            for entry in ("fit_predict", "fit_transform"):
+                ctx.case({"entry": nm, "rep": rep, "via": entry}, nontrivial=True)
+                ctx.count("entry_point_then_update", entry)
+                inp = {"detector": nm, "hyper_parameters": {k_: str(v_) for k_, v_ in kw.items()}, "entry_point": entry, "rows": [len(A), len(B), len(C)]}
+                try:
+                    d = isolated.build(nm, kw).fit(A.copy())
+                    getattr(d, entry)(B.copy())
+                    d.update(C.copy())
+                    got = (isolated.canon(d.predict(D.copy())), [float(getattr(d, a_)) for a_ in ("penalty_", "threshold_", "collective_penalty_") if hasattr(d, a_)])
+                    f = isolated.build(nm, kw).fit(B.copy())
+                    f.update(C.copy())
+                    want = (isolated.canon(f.predict(D.copy())), [float(getattr(f, a_)) for a_ in ("penalty_", "threshold_", "collective_penalty_") if hasattr(f, a_)])
+                except Exception as ex:
+                    ctx.violation(f"{nm}: fit(A); {entry}(B); update(C); predict raised {type(ex).__name__}: {str(ex)[:120]}", inp, {"what": "exception", "op": "entry-point-update", "cls": type(ex).__name__})
+                    continue
+                if got[0] != want[0] or not np.allclose(got[1], want[1], rtol=1e-12, atol=0):
+                    ctx.violation(f"{nm}: after fit(A); {entry}(B); update(C) the detector has {got[1]} and predicts {str(got[0])[:100]}; a fresh detector after fit(B); update(C) has "
+                                  f"{want[1]} and predicts {str(want[0])[:100]}: {entry} is a fit, the training data is B", inp, {"what": "entry-point-not-a-fit", "detector": nm})
+    scs = [("L2Cost", lambda: L2Cost(), 2, 1), ("L2Cost(0.5)", lambda: L2Cost(0.5), 2, 1), ("GaussianVarCost", lambda: GaussianVarCost(), 2, 2), ("GaussianCovCost", lambda: GaussianCovCost(), 2, 3),
+           ("CUSUM", lambda: CUSUM(), 3, 1), ("ChangeScore(L2Cost)", lambda: ChangeScore(L2Cost()), 3, 1), ("L2Saving", lambda: L2Saving(), 2, 1),
+           ("Saving(L2Cost(0))", lambda: Saving(L2Cost(0.0)), 2, 1), ("LocalAnomalyScore(L2Cost)", lambda: LocalAnomalyScore(L2Cost()), 4, 1)]
+    for rep in range(ctx.n(2, 8)):
+        n, p = int(rng.integers(20, 40)), 2
+        first, second = rng.normal(size=(n, p)), rng.normal(size=(n, p)) * 3.0 + 1.0
+        for nm, mk, k, ms in scs:
+            cut = {2: [2, n - 3], 3: [2, n // 2, n - 3], 4: [2, n // 3, 2 * n // 3, n - 3]}[k]
+            ctx.case({"scorer-buffer": nm, "rep": rep}, nontrivial=True)
+            ctx.count("scorer_buffer_reuse", nm.split("(")[0])
+            try:
+                buf = first.copy()
+                sc = mk().fit(buf)
+                sc.evaluate(np.asarray([cut]))
+                buf[:] = second
+                got = np.asarray(sc.fit(buf).evaluate(np.asarray([cut])), dtype=float)
+                want = np.asarray(mk().fit(second.copy()).evaluate(np.asarray([cut])), dtype=float)
+            except Exception as ex:
+                ctx.violation(f"{nm}: fit(buffer); evaluate; buffer[:] = other series; fit(buffer); evaluate raised {type(ex).__name__}: {str(ex)[:100]}", {"scorer": nm},
+                              {"what": "exception", "op": "scorer-buffer", "cls": type(ex).__name__})
+                continue
+            if got.shape != want.shape or not np.allclose(got, want, rtol=1e-12, atol=1e-12):
+                ctx.violation(f"{nm}: fitted again on the caller's buffer after it was overwritten in place, evaluate({cut}) = {got.tolist()[0][:3]}; a fresh scorer fitted on the new "
+                              f"numbers gives {want.tolist()[0][:3]}", {"scorer": nm, "first": first.tolist(), "second": second.tolist(), "cut": cut},
+                              {"what": "scorer-buffer-reuse", "scorer": nm.split("(")[0]})
 
 
 def capa_params_stream(ctx):
